@@ -293,6 +293,23 @@ def run(ck):
                 if max(abs(a_ - b_) for a_, b_ in zip(again, want8)) > 1e-9 * max(want8) or max(abs(a_ - b_) for a_, b_ in zip(site_strengths, want8)) > 1e-9 * max(want8):
                     ck.fail("unchanged:dipole-strengths", "dipole strengths of the site transitions read before / after the calculation are not |d_k|^2", inp,
                             [site_strengths, again], want8)
+            # the calculation requested while a units context is open: the same spectrum (read in internal units)
+            if h % 2 == 1 or h < 3:
+                try:
+                    calc_u = AbsSpectrumCalculator(ta, system=make(nmol, energies, dips, poss, couplings, reorgs, cortimes))
+                    with energy_units("1/cm"):
+                        calc_u.bootstrap(rwa=12000.0)
+                        sp_u = calc_u.calculate(raw=True)
+                    with energy_units("int"):
+                        ax_u = numpy.array(sp_u.axis.data)
+                    du = float(numpy.abs(numpy.array(sp_u.data) - data).max() / numpy.abs(data).max())
+                    dau = float(numpy.abs(ax_u - axis).max() / numpy.abs(axis).max()) if ax_u.shape == axis.shape else float("inf")
+                    ck.resid("spectrum calculated inside a units context vs outside", max(du, dau))
+                    if du > 1e-9 or dau > 1e-12:
+                        ck.fail("line-position:units-context", "the spectrum calculated while energy_units('1/cm') is open differs from the one calculated outside the "
+                                "context (lines no longer at the transition energies)", dict(inp, inside="energy_units('1/cm')"), [du, dau])
+                except Exception as e:
+                    ck.fail("raises:spectrum:units-context", "calculate() inside a units context raised %r" % (e,), inp)
             # the energy origin of the molecules moved (ground states at 300 1/cm, the same transition energies): the same spectrum
             if h % 2 == 0:
                 _, sp9 = spectrum(make(nmol, energies, dips, poss, couplings, reorgs, cortimes, ground=300.0))
